@@ -434,6 +434,40 @@ def distribute_item(t, is_array=lambda a: not a.is_number):
     return rewrite(t, fn)
 
 
+def item_of_slice(t, nonneg):
+    """x[a:b][k] -> x[k + a] for a scalar index k that `nonneg` confirms to be >= 0 and a start a >= 0 (or none), unit step.
+    The stop only decides whether the access raises; where it does not, both read the same element."""
+    def fn(n):
+        if fname(n) != "item" or len(n.args) != 2 or fname(n.args[0]) != "item" or len(n.args[0].args) != 2:
+            return None
+        inner, k = n.args
+        x, s = inner.args
+        if fname(s) != "slc" or len(s.args) != 3 or fname(k) in ("slc", "tuple") or isinstance(k, sp.Tuple):
+            return None
+        a, _, st = s.args
+        if str(st) not in ("None", "1"):
+            return None
+        a = sp.Integer(0) if str(a) == "None" else a
+        if not (getattr(a, "is_Integer", False) and a >= 0) or not nonneg(k):
+            return None
+        return op("item", x, k + a)
+    return rewrite(t, fn)
+
+
+def arange_element(t, nonneg):
+    """arange(a, b, s)[k] -> a + s*k for a scalar index k that `nonneg` confirms to be >= 0 (the stop only decides whether the
+    access raises)"""
+    def fn(n):
+        if fname(n) != "item" or len(n.args) != 2 or fname(n.args[0]) != "arange" or not nonneg(n.args[1]):
+            return None
+        a = n.args[0].args
+        start, step = (sp.Integer(0), sp.Integer(1)) if len(a) == 1 else (a[0], a[2] if len(a) > 2 else sp.Integer(1))
+        if str(start) == "None" or str(step) == "None":
+            return None
+        return start + step * n.args[1]
+    return rewrite(t, fn)
+
+
 def canon_floordiv(t):
     """Floor-division identities with positive integer divisors a, b (x any real, q integer valued):
     (x // a) // b == x // (a*b);   (x + m*a*q) // a == x // a + m*q for an integer m."""
